@@ -21,7 +21,7 @@ from pypika_tortoise.terms import Criterion, Case, SystemTimeValue, Tuple
 PROPERTY = "C17"
 
 NAMES = ["t", "u"]
-SCHEMAS = ["none", "str", "list", "schema", "nested", "other"]
+SCHEMAS = ["none", "str", "list", "schema", "nested", "other", "db_only", "deep3"]
 ALIASES = [None, "x"]
 TEMPORAL = ["none", "for", "for2", "portion"]
 QCLS = [None, "pg"]
@@ -40,6 +40,10 @@ def mk_schema(k):
         return Schema("s", parent=Database("d"))
     if k == "other":
         return "s2"
+    if k == "db_only":  # a proper prefix of the two-level paths
+        return "d"
+    if k == "deep3":  # ... which are proper prefixes of this one
+        return ["d", "s", "x"]
 
 
 def mk_table(desc):
@@ -83,7 +87,7 @@ def mk_other(desc):
 
 def other_descs():
     out = []
-    for parts in (["s"], ["s2"], ["d", "s"], ["d", "s2"], ["e", "s"]):
+    for parts in (["s"], ["s2"], ["d", "s"], ["d", "s2"], ["e", "s"], ["d"], ["d", "s", "x"], ["s", "x"]):
         for db in (False, True):
             out.append(["schema", parts, db])
     for name in ("c1", "c2"):
@@ -135,7 +139,9 @@ def check_pair(res, a, b, da, db_, label):
     if eq_ab != eq_ba:
         res.violate("C17|%s|asymmetric" % label, "a == b differs from b == a", a=da, b=db_)
     ne = a != b
-    if isinstance(ne, bool) and ne == eq_ab:
+    if not isinstance(ne, bool):
+        res.violate("C17|%s|ne-not-bool" % label, "== returns a bool but != does not (it is truthy whatever the operands)", a=da, b=db_)
+    elif ne == eq_ab:
         res.violate("C17|%s|ne-not-negation" % label, "a != b is not the negation of a == b", a=da, b=db_)
     ha, hb = safe_hash(a), safe_hash(b)
     if eq_ab and ha is not None and hb is not None and ha != hb:
